@@ -729,6 +729,11 @@ func (self *LockCommandData) DecodeLockCommand(lockCommand *LockCommand) error {
 			return errors.New("data size error")
 		}
 		copy(buf[4:], self.Data[valueOffset+68:valueOffset+dataLen+68])
+		// the embedded command's own value frame is checked like one read from a connection: it has
+		// its two header bytes, and a property region it announces lies inside it
+		if len(buf) < 6 || (buf[5]&LOCK_DATA_FLAG_CONTAINS_PROPERTY != 0 && (len(buf) < 8 || 8+(int(buf[6])|int(buf[7])<<8) > len(buf))) {
+			return errors.New("data frame error")
+		}
 		lockCommand.Data = NewLockCommandDataFromOriginBytes(buf)
 	}
 	return nil
